@@ -224,35 +224,53 @@ Proof. intros d x y. unfold answers. rewrite time_within_unfold. apply wkt_only_
 (* ---- durations ---- *)
 Definition dur_kernel (v0 : bool) (d : Z) (fx fy : list (string * cval)) : bool :=
   dur_close_gen v0 d (as_duration fx) (as_duration fy).
-Lemma duration_within_unfold v0 d x y :
+Lemma duration_within_gen_unfold v0 d x y :
   duration_within_gen v0 d x y = wkt_cases dur_full x y (dur_kernel v0 d).
 Proof. reflexivity. Qed.
+Lemma duration_within_unfold d x y :
+  duration_within d x y = wkt_cases dur_full x y (dur_sn_kernel d).
+Proof. reflexivity. Qed.
 
-Lemma dur_kernel_sym d fx fy : dur_kernel false d fx fy = dur_kernel false d fy fx.
+(* the (seconds, nanos) kernel on ALL integers: symmetric, reflexive *)
+Lemma dur_sn_close_sym d xs xn ys yn : dur_sn_close d xs xn ys yn = dur_sn_close d ys yn xs xn.
 Proof.
-  unfold dur_kernel, dur_close_gen. f_equal.
-  replace (as_duration fy - as_duration fx) with (- (as_duration fx - as_duration fy)) by lia.
-  rewrite Z.abs_opp. reflexivity.
+  unfold dur_sn_close.
+  destruct (Z.ltb_spec xs ys); destruct (Z.ltb_spec ys xs); try reflexivity; try lia.
+  assert (xs = ys) by lia. subst ys. unfold dur_sn_ordered. rewrite Z.sub_diag.
+  change (max_dur_seconds <? 0) with false. cbn [Z.mul].
+  destruct (Z.leb_spec 0 (xn - yn)); destruct (Z.leb_spec 0 (yn - xn)).
+  - f_equal; lia.
+  - destruct (Z.leb_spec (- (yn - xn)) 0); [lia|]. f_equal; lia.
+  - destruct (Z.leb_spec (- (xn - yn)) 0); [lia|]. f_equal; lia.
+  - lia.
 Qed.
+Lemma dur_sn_kernel_sym d fx fy : dur_sn_kernel d fx fy = dur_sn_kernel d fy fx.
+Proof. unfold dur_sn_kernel. f_equal. apply dur_sn_close_sym. Qed.
 
 Theorem duration_symmetric : forall d x y, duration_within d x y = duration_within d y x.
-Proof. intros. unfold duration_within. rewrite !duration_within_unfold. apply wkt_cases_sym. apply dur_kernel_sym. Qed.
+Proof. intros. rewrite !duration_within_unfold. apply wkt_cases_sym. apply dur_sn_kernel_sym. Qed.
+
+Lemma dur_sn_kernel_refl d fx : 0 <= d -> dur_sn_kernel d fx fx = true.
+Proof.
+  intros Hd. unfold dur_sn_kernel, dur_sn_close, dur_sn_ordered. rewrite Z.ltb_irrefl, !Z.sub_diag.
+  change (max_dur_seconds <? 0) with false. cbn.
+  apply andb_true_iff. split; apply Z.leb_le; exact Hd.
+Qed.
 
 Theorem duration_reflexive : forall d x, 0 <= d ->
   says (duration_within d) x x = true \/ answers (duration_within d) x x = false.
 Proof.
-  intros d x Hd. unfold says, answers, duration_within. rewrite duration_within_unfold.
+  intros d x Hd. unfold says, answers. rewrite duration_within_unfold.
   destruct x as [| tx vx fx ux | |]; try (right; reflexivity).
   unfold wkt_cases. destruct (String.eqb tx dur_full); simpl; [|right; reflexivity].
   left. destruct vx; simpl; [|reflexivity].
-  unfold dur_kernel, dur_close_gen. rewrite Z.sub_diag. simpl.
-  apply andb_true_iff. split; apply Z.leb_le; exact Hd.
+  apply dur_sn_kernel_refl. exact Hd.
 Qed.
 
 Theorem duration_only_own_kind : forall d x y,
   answers (duration_within d) x y = true ->
   exists tx vx fx ux ty vy fy uy, x = CM tx vx fx ux /\ y = CM ty vy fy uy /\ (tx = dur_full \/ ty = dur_full).
-Proof. intros d x y. unfold answers, duration_within. rewrite duration_within_unfold. apply wkt_only_own_kind. Qed.
+Proof. intros d x y. unfold answers. rewrite duration_within_unfold. apply wkt_only_own_kind. Qed.
 
 Theorem durp_only_own_kind : forall p x y,
   answers (duration_within_p p) x y = true ->
@@ -285,19 +303,98 @@ Proof.
   rewrite O2, O3. reflexivity.
 Qed.
 
-(* accepts exactly the pairs within the stated tolerance, for Durations inside the int64
-   nanosecond range (AsDuration saturates outside: known finding) *)
-Theorem duration_accepts_iff_within : forall d tx ux fx ty uy fy,
+(* the kernel before the (seconds, nanos) repair: exact for Durations inside the int64 nanosecond range
+   (AsDuration saturates outside) *)
+Theorem duration_v1_accepts_iff_within : forall d tx ux fx ty uy fy,
   0 <= d -> tx = dur_full -> ty = dur_full ->
   in64 (get_int "seconds" fx * giga) = true -> in64 (total_nanos fx) = true ->
   in64 (get_int "seconds" fy * giga) = true -> in64 (total_nanos fy) = true ->
-  duration_within d (CM tx true fx ux) (CM ty true fy uy) =
+  duration_within_v1 d (CM tx true fx ux) (CM ty true fy uy) =
   (Z.abs (total_nanos fx - total_nanos fy) <=? d, true).
 Proof.
   intros d tx ux fx ty uy fy Hd -> -> A1 A2 B1 B2.
-  unfold duration_within, duration_within_gen, wkt_cases. rewrite String.eqb_refl. cbn [negb andb orb xorb].
+  unfold duration_within_v1, duration_within_gen, wkt_cases. rewrite String.eqb_refl. cbn [negb andb orb xorb].
   unfold dur_close_gen. rewrite (as_duration_exact fx A1 A2), (as_duration_exact fy B1 B2).
   destruct (Z.leb_spec 0 d); [reflexivity|lia].
+Qed.
+
+(* the current kernel: the exact distance on EVERY pair of (seconds, nanos) with int32 nanos -- no bound on the
+   seconds at all -- for every tolerance a time.Duration can hold *)
+Lemma in32_iff z : in32 z = true <-> -2147483648 <= z <= 2147483647.
+Proof. unfold in32. rewrite andb_true_iff, !Z.leb_le. tauto. Qed.
+
+Lemma dur_sn_ordered_exact d xs xn ys yn :
+  d <= max_dur -> ys <= xs -> -2147483648 <= xn <= 2147483647 -> -2147483648 <= yn <= 2147483647 ->
+  dur_sn_ordered d xs xn ys yn = (Z.abs ((xs * giga + xn) - (ys * giga + yn)) <=? d).
+Proof.
+  intros Hd Ho Hx Hy. unfold dur_sn_ordered, max_dur_seconds, max_dur, giga in *.
+  destruct (Z.ltb_spec 9223372041 (xs - ys)).
+  - symmetry. apply Z.leb_gt. lia.
+  - destruct (Z.leb_spec 0 (xn - yn)).
+    + f_equal. lia.
+    + destruct (Z.leb_spec (- (xn - yn)) ((xs - ys) * 1000000000)); f_equal; lia.
+Qed.
+
+Lemma dur_sn_close_exact d xs xn ys yn :
+  d <= max_dur -> -2147483648 <= xn <= 2147483647 -> -2147483648 <= yn <= 2147483647 ->
+  dur_sn_close d xs xn ys yn = (Z.abs ((xs * giga + xn) - (ys * giga + yn)) <=? d).
+Proof.
+  intros Hd Hx Hy. unfold dur_sn_close. destruct (Z.ltb_spec xs ys).
+  - rewrite dur_sn_ordered_exact by lia. f_equal. lia.
+  - apply dur_sn_ordered_exact; lia.
+Qed.
+
+Lemma dur_sn_kernel_exact d fx fy :
+  0 <= d <= max_dur -> in32 (get_int "nanos" fx) = true -> in32 (get_int "nanos" fy) = true ->
+  dur_sn_kernel d fx fy = (Z.abs (total_nanos fx - total_nanos fy) <=? d).
+Proof.
+  intros Hd Nx Ny. apply in32_iff in Nx. apply in32_iff in Ny.
+  unfold dur_sn_kernel, total_nanos. rewrite dur_sn_close_exact by lia.
+  destruct (Z.leb_spec 0 d); [reflexivity|lia].
+Qed.
+
+Theorem duration_accepts_iff_within : forall d tx ux fx ty uy fy,
+  0 <= d <= max_dur -> tx = dur_full -> ty = dur_full ->
+  in32 (get_int "nanos" fx) = true -> in32 (get_int "nanos" fy) = true ->
+  duration_within d (CM tx true fx ux) (CM ty true fy uy) =
+  (Z.abs (total_nanos fx - total_nanos fy) <=? d, true).
+Proof.
+  intros d tx ux fx ty uy fy Hd -> -> Nx Ny.
+  rewrite duration_within_unfold. unfold wkt_cases. rewrite String.eqb_refl. cbn [negb andb orb xorb].
+  rewrite dur_sn_kernel_exact by assumption. reflexivity.
+Qed.
+
+(* no operation of durationsWithin wraps: the function on Z is the function as Go computes it *)
+Lemma wrapu64_id z : 0 <= z < 18446744073709551616 -> wrapu64 z = z.
+Proof. intros H. unfold wrapu64. apply Z.mod_small. exact H. Qed.
+Lemma wrapu64_sub_int64 a b :
+  -9223372036854775808 <= b <= a -> a <= 9223372036854775807 -> wrapu64 (wrapu64 a - wrapu64 b) = a - b.
+Proof.
+  intros Hb Ha. unfold wrapu64.
+  rewrite <- Zminus_mod. apply Z.mod_small. lia.
+Qed.
+Lemma dur_sn_ordered_no_wrap d xs xn ys yn :
+  0 <= d <= max_dur -> ys <= xs ->
+  -9223372036854775808 <= ys -> xs <= 9223372036854775807 ->
+  -2147483648 <= xn <= 2147483647 -> -2147483648 <= yn <= 2147483647 ->
+  dur_sn_ordered_go d xs xn ys yn = dur_sn_ordered d xs xn ys yn.
+Proof.
+  intros Hd Ho Hy Hx Nx Ny. unfold dur_sn_ordered_go, dur_sn_ordered.
+  rewrite wrapu64_sub_int64 by lia. unfold max_dur_seconds, max_dur, giga in *.
+  destruct (Z.ltb_spec 9223372041 (xs - ys)); [reflexivity|].
+  rewrite (wrapu64_id ((xs - ys) * 1000000000)) by lia.
+  rewrite (wrap64_id (xn - yn)) by lia. rewrite (wrapu64_id d) by lia.
+  destruct (Z.leb_spec 0 (xn - yn)).
+  - rewrite (wrapu64_id (xn - yn)) by lia. rewrite wrapu64_id by lia. reflexivity.
+  - rewrite (wrap64_id (- (xn - yn))) by lia. rewrite (wrapu64_id (- (xn - yn))) by lia.
+    destruct (Z.leb_spec (- (xn - yn)) ((xs - ys) * 1000000000)); rewrite wrapu64_id by lia; reflexivity.
+Qed.
+Theorem dur_sn_no_wrap : forall d xs xn ys yn,
+  0 <= d <= max_dur -> in64 xs = true -> in64 ys = true -> in32 xn = true -> in32 yn = true ->
+  dur_sn_close_go d xs xn ys yn = dur_sn_close d xs xn ys yn.
+Proof.
+  intros d xs xn ys yn Hd X Y Nx Ny. apply in64_iff in X. apply in64_iff in Y. apply in32_iff in Nx. apply in32_iff in Ny.
+  unfold dur_sn_close_go, dur_sn_close. destruct (Z.ltb_spec xs ys); apply dur_sn_ordered_no_wrap; lia.
 Qed.
 
 (* the pinned commit: 9000000000 s and -4611686018 s within 0 ns of each other *)
@@ -307,6 +404,14 @@ Theorem duration_wrap_v0_refuted :
   duration_within_v0 0 (dur_msg 9000000000 0) (dur_msg (-4611686018) 0) = (true, true) /\
   duration_within 0 (dur_msg 9000000000 0) (dur_msg (-4611686018) 0) = (false, true).
 Proof. split; vm_compute; reflexivity. Qed.
+(* the code between 9f5e91a and the (seconds, nanos) repair: AsDuration saturates, 1e10 s and 2e10 s within 0 ns
+   of each other; 999999999 ns against 1e10 s within a tolerance just below the int64 maximum *)
+Theorem duration_saturation_v1_refuted :
+  duration_within_v1 0 (dur_msg 10000000000 0) (dur_msg 20000000000 0) = (true, true) /\
+  duration_within 0 (dur_msg 10000000000 0) (dur_msg 20000000000 0) = (false, true) /\
+  duration_within_v1 9223372036000000000 (dur_msg 0 999999999) (dur_msg 10000000000 0) = (true, true) /\
+  duration_within 9223372036000000000 (dur_msg 0 999999999) (dur_msg 10000000000 0) = (false, true).
+Proof. repeat split; vm_compute; reflexivity. Qed.
 
 (* DurationValueWithinP is a ratio test: with p = 3/4, (1s,2s) accepted, (2s,1s) and (1s,1s) not *)
 Theorem durp_not_symmetric_refuted :
